@@ -62,12 +62,15 @@ CHECKS = {
  "C18": ("exhaustive enumeration of all pointer-DAG shapes up to a node bound x sharing policies (no sharing, pointer sharing, every congruence as a class-sharing tracker), iterators stepped against a recursive reference; real Commit/Redeem DAGs with the real MaxSharing",
          "All canonical DAG shapes with <=6/7 nodes and out-degree <=2 through a harness type implementing the public DagLike, under NoSharing, InternalSharing and every congruence partition (<=5/6 nodes) as an abstract identity-hash sharing; post-order, right-to-left, pre-order, verbose pre-order (counters, depth, parent, depth limit) and is_shared_as compared item by item. Real CommitNode/RedeemNode DAGs of <=4/5 nodes with MaxSharing keyed on the actual identity hash.",
          "Trusts the 25-line recursive reference post-order. Larger shapes are not explored.", "5/C18"),
+ "C20": ("stateless model checking of real multi-threaded executions: a controlled token-passing scheduler over real OS threads explores every schedule with at most 2 (thorough 3) preemptions of every pair (and drop-centred triple) of library workloads, via scheduling points compiled into the library (hook H2)",
+         "7 workloads (decode of shared bytes; construct + finalize incl. an occurs-check failure in an own context; execution of a shared Arc<RedeemNode> with C jets on an own machine; prune of the shared program; clone/drop of the shared program; drop of the owner's reference so that the last reference dies in any thread; compare/prune/destructure a shared Value): all 28 unordered pairs at <=2/3 preemptions and 7 triples at <=1/2; every complete schedule's per-thread result fingerprints must equal the sequential ones, no panic, no deadlock/livelock (spinning is visible), the shared program must be freed; every tenth schedule is replayed and must reproduce the same trace.",
+         "Preemptions happen only at the H2 points (context-lock, name and precomputed-type points thinned to every 8th per thread); code inside C jets and weak-memory behaviour of std::sync::Arc are not explored; at most 3 threads.", "5/C20"),
  "C19": ("exhaustive enumeration of (witness stack shape, cost) pairs around every compact-size boundary, judged by brute-force search for the shortest sufficient annex",
          "All stacks with item counts and last-item sizes straddling 252/253 and 65535/65536, all costs whose deficit is within +-3/6 of each region edge and every deficit 0..600/70000 with +-1 milliweight rounding variants. Complete over that grid.",
          "Trusts the compact-size definition re-implemented in the oracle; costs between the grid points are not enumerated.", "5/C19"),
 }
 
-PENDING = {}
+ 
 ALL = ["C%02d" % i for i in range(1, 21)]
 
 def main():
@@ -87,7 +90,7 @@ def main():
             "level_note": note,
             "technique": tech,
         })
-    na = [{"property_id": p, "reason": PENDING.get(p, "check not built yet in this revision of /verif (planned, see DESIGN.md section 5); not claimed until it exists")}
+    na = [{"property_id": p, "reason": dict().get(p, "check not built yet in this revision of /verif (planned, see DESIGN.md section 5); not claimed until it exists")}
           for p in ALL if p not in CHECKS]
     m = {
         "version": 1,
